@@ -137,6 +137,8 @@ def run_unit_layout(key):
     negative strides): the models may not depend on either."""
     model, D, its, variant, vidx, seed = (key[k] for k in ('model', 'D', 'its', 'variant', 'v', 'seed'))
     N, K = 6, 2
+    if variant == 'large_n':
+        N = (5000, 9001, 4097)[vidx]     # more frames than any internal block size, not a multiple of a power of two
     positive = model == 'vmfmm'
     cplx = model in M.COMPLEX_OBS
     integ = model in M.INTEGRATION
@@ -149,7 +151,7 @@ def run_unit_layout(key):
         gains = mod if positive else mod * np.exp(1j * r.uniform(0, 2 * np.pi, N))
         layout = 'C'
     else:
-        layout = A.LAYOUTS[vidx]
+        layout = A.LAYOUTS[vidx] if variant == 'layout' else 'C'
         mod = 10.0 ** r.uniform(-3, 3, N)
         gains = mod if positive else mod * np.exp(1j * r.uniform(0, 2 * np.pi, N))
     if integ:
@@ -350,6 +352,9 @@ def subchecks(tier, seed):
                         yield (model, D, its, 'near_one', v, seed)
                     for v in range(1, len(A.LAYOUTS)):
                         yield (model, D, its, 'layout', v, seed)
+                    if D == 3 and its == 1 and model != 'cbmm':
+                        for v in range(3):
+                            yield (model, D, its, 'large_n', v, seed)
     subs.append(Sub('unit_norm_inputs_and_layouts', ('model', 'D', 'its', 'variant', 'v', 'seed'), unit_cases,
                     run_unit_layout, bound=dict(near_one=[list(x) for x in NEAR_ONE], layouts=list(A.LAYOUTS[1:]))))
 
